@@ -55,6 +55,9 @@ def plan_C19(ck):
     q = ck.tier == "quick"
     ck.traces(cf.state_cases(ck.seed + 19, 150 if q else 4000, 5 if q else 8, "C19", extra="basins"), ["C19"], tag="c19",
               nontrivial=cf.nontrivial_world)
+    # snapshot graphs are flow graphs too: basins() on them, repeatedly, across updates of the owner
+    ck.traces(cf.snapshot_cases(ck.seed + 119, 60 if q else 1500, 4 if q else 6, "C19snap"), ["C19"], tag="c19snap",
+              nontrivial=cf.nontrivial_world, sample_events=("Basins",))
 
 
 def plan_C03(ck):
@@ -122,10 +125,12 @@ def plan_C11(ck):
         ck.model("ThreadPool-F-4workers", "MCThreadPool.tla", "MCThreadPool_F.cfg", note=note, timeout=6000, xmx="24g")
     ck.traces(list(cp.pool_cases(ck.seed + 11, 150 if q else 3000, "C11")) + list(cp.lost_wakeup_cases("C11")), [], tag="c11",
               spec=POOL_SPEC, diag=False, timeout_ms=20000, sample_events=("PoolNew", "g"))
+    if q and ck.violations:
+        return      # the quick tier stops at the first stage that finds violations
     # run-time observer of the happens-before relation: the same programs free-running under
     # ThreadSanitizer (a race report or a hang ends the execution: NoReturn, rejected)
     ck.traces(list(cp.pool_cases(ck.seed + 12, 40 if q else 600, "C11tsan", ctrl=0)), [], tag="c11tsan", flavor="tsan",
-              build=TSAN_POOL_BUILD, env=TSAN_ENV, spec=("PoolFree.tla", "PoolFree.cfg"), diag=False, timeout_ms=60000,
+              build=TSAN_POOL_BUILD, env=TSAN_ENV, spec=("PoolFree.tla", "PoolFree.cfg"), diag=False, timeout_ms=20000,
               sample_events=("PoolNew", "cb"), nproc=8)
 
 
@@ -146,6 +151,8 @@ def plan_C10(ck):
               nontrivial=cf.nontrivial_world, timeout_ms=30000)
     ck.traces(cf.parallel_cases(ck.seed + 110, 30 if q else 400, 5, "C10big", big=True), ["C10"], tag="c10big",
               nontrivial=cf.nontrivial_world, timeout_ms=60000)
+    if q and ck.violations:
+        return
     # happens-before observer on the grids whose neighbour look-up goes through a scratch buffer
     ck.traces(cf.parallel_cases(ck.seed + 210, 24 if q else 300, 4, "C10tsan", kinds=["raster_nc", "mesh"]), ["C10"],
               tag="c10tsan", flavor="tsan", build=TSAN_FLOW_BUILD, env=TSAN_ENV, timeout_ms=120000, nproc=8,
@@ -161,6 +168,49 @@ def plan_C12(ck):
 def plan_C13(ck):
     q = ck.tier == "quick"
     ck.traces(cs.spl_exact_cases(ck.seed + 13, 300 if q else 6000, "C13"), ["C13"], tag="c13", sample_events=("Spl",))
+
+
+def plan_C20(ck):
+    """TLC checks Add-fold == declarative Valid on every sequence, writes the enumeration out; every
+    sequence is then given to the real constructor on three grid types (B1) and validated (B2)."""
+    import random
+    q = ck.tier == "quick"
+    out = os.path.join(ck.workdir, "opseqs.ndjson")
+    r = vlib.run_tlc("MCOperatorSeq.tla", "MCOperatorSeq_quick.cfg" if q else "MCOperatorSeq_4.cfg", env={"OPSEQ_OUT": out},
+                     workers=4, timeout=1500)
+    ck.ev.add_model("OperatorSeq-Add-refines-Valid", r, "ASSUME AllRefine over every sequence of bounded length (8 operator kinds); sequences written out for replay")
+    if r.error is not None:
+        if "Assumption" in r.out:
+            ck.report(conjunct="model:OperatorSeq:AddRefinesValid", case_id="model:OperatorSeq", case=dict(kind="model", model="OperatorSeq"))
+            return
+        raise vlib.MachineryError("MCOperatorSeq failed:\n" + (r.error_text or r.out[-2000:]))
+    if not q:
+        r5 = ck.model("OperatorSeq-length-5", "MCOperatorSeq.tla", "MCOperatorSeq_5.cfg", workers=4, coverage=False,
+                      note="the same refinement on all 37 448 sequences of length <= 5 (model checking only)")
+    seqs = [json.loads(l)["ops"] for l in open(out)]
+    ck.ev.cov["sequences_enumerated"] = len(seqs)
+    ck.ev.cov["exhaustive"] = True
+    rng = random.Random(ck.seed + 20)
+    grids = [gen.profile(4, [gen.FV, gen.CORE]), gen.raster(3, 3, "queen", [gen.FV, gen.CORE, gen.FG, gen.CORE]),
+             gen.lattice_mesh(random.Random(3), 2, 1)]
+    cases = []
+    for gi, g in enumerate(grids):
+        n = gen.grid_size(g)
+        for i in range(0, len(seqs), 40):
+            steps = []
+            for k, ops in enumerate(seqs[i:i + 40]):
+                steps.append(dict(op="new", g=k, ops=ops))
+                # "update" / "drop" on a graph that could not be built are skipped by the harness
+                steps.append(dict(op="update", g=k, z=dict(k="int", m=[rng.randrange(4) for _ in range(n)], e=0), opt=1))
+                steps.append(dict(op="drop", g=k, opt=1))
+            cases.append(gen.flow_case("C20-%d-%d" % (gi, i), g, steps, timeout_ms=60000))
+    ck.traces(cases, ["C20"], tag="c20", sample_events=("New",))
+
+
+def plan_C15(ck):
+    q = ck.tier == "quick"
+    ck.traces(cf.basin_graph_cases(ck.seed + 15, 150 if q else 4000, 5 if q else 7, "C15", high_degree=6 if q else 60), ["C15"],
+              tag="c15", nontrivial=cf.nontrivial_world, sample_events=("BasinGraph",))
 
 
 GRID_SPEC = ("GridTrace.tla", "GridTrace.cfg")
@@ -183,7 +233,7 @@ def plan_C18(ck):
     ck.traces(cg.mesh_cases(ck.seed + 18, 200 if q else 5000, "C18"), ["C18"], tag="c18", spec=GRID_SPEC, sample_events=("GridNew",))
 
 
-PLANS = {"C07": plan_C07, "C17": plan_C17, "C18": plan_C18, "C12": plan_C12, "C13": plan_C13, "C10": plan_C10, "C11": plan_C11, "C09": plan_C09, "C16": plan_C16, "C01": plan_C01, "C02": plan_C02, "C03": plan_C03, "C04": plan_C04, "C05": plan_C05, "C06": plan_C06,
+PLANS = {"C15": plan_C15, "C20": plan_C20, "C07": plan_C07, "C17": plan_C17, "C18": plan_C18, "C12": plan_C12, "C13": plan_C13, "C10": plan_C10, "C11": plan_C11, "C09": plan_C09, "C16": plan_C16, "C01": plan_C01, "C02": plan_C02, "C03": plan_C03, "C04": plan_C04, "C05": plan_C05, "C06": plan_C06,
          "C19": plan_C19}
 
 
